@@ -83,7 +83,7 @@ func TestVerifC07(t *testing.T) {
 		earlyReserveRegionFn = EarlyReserveRegion
 	}(earlyReserveLastUsed)
 
-	n := run.N(600, 60000)
+	n := run.N(600, 30000)
 	run.Cases(n, func(c *vlib.Case) {
 		r := c.R
 		var start uint64
